@@ -60,7 +60,7 @@ def shards(tier):
 
 
 def floors(tier):
-    f = {"histories": 1500, "operations": 20000, "abandon_at_scope_depth3plus": 200, "exception_unwound_2plus_scopes": 200,
+    f = {"histories": 4000, "operations": 60000, "abandon_at_scope_depth3plus": 200, "exception_unwound_2plus_scopes": 200,
          "fail_then_succeed_retrievals": 100, "scope_events": 100000, "max_scope_depth": 4, "results_compared": 15000,
          "results_refres_while_failing": 200}
     for op in ("is_valid", "exhaust", "validate", "take_close", "take_drop", "throw", "resolve", "resolving", "in_scope",
@@ -541,7 +541,7 @@ def run(ctx):
     slog.install()
     try:
         rng = ctx.rng
-        for i in range(ctx.scale(200, 4000)):
+        for i in range(ctx.scale(800, 6000)):
             d = impl.DRAFTS[i % 4]
             world = rich_world(rng, d) if rng.random() < 0.7 else arranged_world(rng, d)
             ops = gen_history(rng, world)
